@@ -955,7 +955,9 @@ impl BufferParser for Parser {
                         self.state = EngineState::Default;
 
                         if let Some(number) = self.parsed_numbers.first() {
-                            for _ in 0..*number {
+                            // more than a screen line of blanks cannot become visible
+                            let number = min(*number, buf.terminal_state.get_width());
+                            for _ in 0..number {
                                 caret.ins(buf, current_layer);
                             }
                         } else {
@@ -1041,7 +1043,9 @@ impl BufferParser for Parser {
                                 ).into());
                             }
                             if let Some(number) = self.parsed_numbers.first() {
-                                for _ in 0..*number {
+                                // del is a no-op once the line is empty
+                                let line_len = buf.layers[current_layer].lines.get(caret.pos.y as usize).map_or(0, |l| l.chars.len() as i32);
+                                for _ in 0..min(*number, line_len) {
                                     caret.del(buf,current_layer);
                                 }
                             } else {
@@ -1065,7 +1069,9 @@ impl BufferParser for Parser {
                                 ).into());
                             }
                             if let Some(number) = self.parsed_numbers.first() {
-                                for _ in 0..*number {
+                                // a screenful of empty lines pushes everything out of view
+                                let number = min(*number, buf.terminal_state.get_height());
+                                for _ in 0..number {
                                     buf.insert_terminal_line(current_layer,caret.pos.y);
                                 }
                             } else {
@@ -1276,6 +1282,8 @@ impl BufferParser for Parser {
                         } else {
                             1
                         };
+                        // after 'height' steps the scrolling region is blank
+                        let num = min(num, buf.terminal_state.get_height());
                         (0..num).for_each(|_| buf.scroll_up(current_layer));
                         return Ok(CallbackAction::Update);
                     }
@@ -1287,6 +1295,7 @@ impl BufferParser for Parser {
                         } else {
                             1
                         };
+                        let num = min(num, buf.terminal_state.get_height());
                         (0..num).for_each(|_| buf.scroll_down(current_layer));
                         return Ok(CallbackAction::Update);
                     }
@@ -1300,6 +1309,8 @@ impl BufferParser for Parser {
                             1
                         };
                         let ch = AttributedChar::new(self.last_char, caret.get_attribute());
+                        // repeating more than a screenful only scrolls copies of the same line
+                        let num = min(num, buf.terminal_state.get_width().saturating_mul(buf.terminal_state.get_height()));
                         (0..num).for_each(|_| buf.print_char(current_layer, caret, ch));
                         return Ok(CallbackAction::Update);
                     }
@@ -1346,6 +1357,8 @@ impl BufferParser for Parser {
                         } else {
                             1
                         };
+                        // past the last tab stop the position no longer changes
+                        let num = min(num, buf.terminal_state.tab_count() as i32 + 1);
                         (0..num).for_each(|_| caret.set_x_position(buf.terminal_state.next_tab_stop(caret.get_position().x)));
                         buf.terminal_state.limit_caret_pos(buf, caret);
                         return Ok(CallbackAction::Update);
@@ -1364,6 +1377,7 @@ impl BufferParser for Parser {
                         } else {
                             1
                         };
+                        let num = min(num, buf.terminal_state.tab_count() as i32 + 1);
                         (0..num).for_each(|_| caret.set_x_position(buf.terminal_state.prev_tab_stop(caret.get_position().x)));
                         buf.terminal_state.limit_caret_pos(buf, caret);
                         return Ok(CallbackAction::Update);
